@@ -212,8 +212,8 @@ func vtokCase(o *vout, prop, id string, in []byte, normalize bool) {
 }
 
 func vclip(s string) string {
-	if len(s) > 4000 {
-		return s[:4000] + "…"
+	if len(s) > 2000000 {
+		return s[:2000000] + "…"
 	}
 	return s
 }
